@@ -487,7 +487,8 @@ impl HttpServer {
     /// Note that this function can block the thread on write, since the
     /// operation is blocking.
     pub fn flush_outgoing_writes(&mut self) {
-        for (_, connection) in self.connections.iter_mut() {
+        let epoll = &self.epoll;
+        for (rawfd, connection) in self.connections.iter_mut() {
             while connection.state == ClientConnectionState::AwaitingOutgoing {
                 if let Err(e) = connection.write() {
                     if let ServerError::ConnectionError(ConnectionError::InvalidWrite) = e {
@@ -495,6 +496,16 @@ impl HttpServer {
                         // flushed the connection
                     }
                     break;
+                }
+                // Everything was written: wait for incoming bytes again, exactly as
+                // `requests` does after a completed write. Otherwise the stream stays
+                // registered for `EPOLLOUT` with nothing to write.
+                if connection.state == ClientConnectionState::AwaitingIncoming {
+                    let _ = Self::epoll_mod(
+                        epoll,
+                        *rawfd,
+                        epoll::EventSet::IN | epoll::EventSet::READ_HANG_UP,
+                    );
                 }
             }
         }
